@@ -116,7 +116,8 @@ Section Close.
   Proof.
     intros HG H. pose proof HG as (HI & HS). unfold Inv in HI. unfold auc_close in H.
     destruct (zget (borrows st) bid) as [b|] eqn:Eb; [|discriminate].
-    destruct (b_liq b) eqn:Eq; cbn [negb] in H; [|discriminate].
+    destruct (b_liq b) eqn:Eq; cbn [negb orb] in H; [|discriminate].
+    destruct (existsb (Z.eqb bid) (v1 st)) eqn:Ev1; [discriminate|].
     destruct (zget (c_pairs cfg) (b_pair b)) as [pr|] eqn:Ep; [|discriminate].
     destruct (zget (c_pools cfg) (pr_out_pool pr)) as [pout|] eqn:Epo; [|discriminate].
     cbv zeta in H.
@@ -159,7 +160,8 @@ Section Close.
   Proof.
     intros H. unfold auc_close in H.
     destruct (zget (borrows st) bid) as [b|] eqn:Eb; [|discriminate].
-    destruct (b_liq b) eqn:Eq; cbn [negb] in H; [|discriminate].
+    destruct (b_liq b) eqn:Eq; cbn [negb orb] in H; [|discriminate].
+    destruct (existsb (Z.eqb bid) (v1 st)) eqn:Ev1; [discriminate|].
     destruct (zget (c_pairs cfg) (b_pair b)) as [pr|] eqn:Ep; [|discriminate].
     destruct (zget (c_pools cfg) (pr_out_pool pr)) as [pout|] eqn:Epo; [|discriminate].
     cbv zeta in H.
@@ -190,7 +192,8 @@ Section Close.
     zget (borrows st) bid = Some b -> b_liq b = true -> 0 < b_brd b -> zget (lends st) (b_lend b) = None ->
     forall st', auc_close cfg st bid target owner back <> Ok st'.
   Proof.
-    intros Eb Eq Hbrd El st' H. unfold auc_close in H. rewrite Eb, Eq in H. cbn [negb] in H.
+    intros Eb Eq Hbrd El st' H. unfold auc_close in H. rewrite Eb, Eq in H. cbn [negb orb] in H.
+    destruct (existsb (Z.eqb bid) (v1 st)) eqn:Ev1; [discriminate|].
     destruct (zget (c_pairs cfg) (b_pair b)) as [pr|] eqn:Ep; [|discriminate].
     destruct (zget (c_pools cfg) (pr_out_pool pr)) as [pout|] eqn:Epo; [|discriminate].
     cbv zeta in H. rewrite El in H.
